@@ -46,6 +46,14 @@ CHECKS.update({
          'Harness tasks run generated programs of read/write acquisitions with yields inside the critical section on pymap.concurrent\'s asyncio read-write lock and on FileLock (tmpfs), under the virtual-time loop; asyncio.Lock acquire/release are made real suspension points and one task is cancelled at a seeded iteration in half of the cases. Oracle: no writer section overlaps any section (FileLock: no two writers), every task ends, a fresh task then obtains the write lock, the lock file is gone.',
          'Trusted: the enter/exit log written by the harness tasks. The threading variants of the primitives are not run (same code shape as the asyncio variant before its repair).'),
 })
+CHECKS.update({
+ 'C09': ('exploration', '4/C09', 'seeded attempt sequences over credentials, mechanisms, TLS/peer configurations and mid-exchange EOF/reset; authentication model + whoami reveal',
+         'Seeded sequences of 1-6 authentication attempts (LOGIN, AUTHENTICATE PLAIN with authzid, AUTHENTICATE LOGIN; right, wrong, empty, oversized and malformed secrets, cancel, EOF and reset while the server waits) under every TLS/peer/STARTTLS configuration, on the IMAP and ManageSieve listeners; after every attempt a LIST (LISTSCRIPTS) must be accepted iff the model says authenticated and a marker mailbox (script) must name the identity the model expects.',
+         'Trusted: the authorization model stated in the evidence assumptions; marker mailboxes created at set-up identify the acting user; 0.3 s invalid-user sleep runs on the virtual clock.'),
+ 'C11': ('exploration', '4/C11', 'seeded namespace programs; namespace model + own wildcard matcher and modified-UTF-7 decoder; probe dumps around RENAME',
+         'Seeded programs of namespace commands over hostile hierarchical names are compared step by step with a model of the name set, the subscribed set and per-mailbox identity/contents; LIST/LSUB results are judged by an independent matcher ("*" any, "%" any but "/"), every listed name is decoded with the harness\'s own modified-UTF-7 decoder, and RENAME must preserve UIDs, contents, UIDVALIDITY and MAILBOXID of the mailbox and its inferiors.',
+         'Trusted: the namespace model and matcher in profiles/c11.py; behaviours the statement leaves open (inferiors of INBOX, \\Noselect names, subscribed-but-missing names) are accepted either way.'),
+})
 NOT_YET = {}
 def main():
     props = [json.loads(l) for l in open(os.path.join(ROOT, 'properties.jsonl'))]
